@@ -394,16 +394,18 @@ def check(ctx):
     ctx.check(merged, "C10.R6", f"{v.qualname}:accumulated", loop, "a failing validator's error is not merged into the accumulated error", v, loop, detail="error = merge_errors(error, err)")
 
     # ---------------- R7: the object node's validator section
-    ctx.rule("C10.R7", "ObjectMethod: validators whose dependencies are all valid run on the mock when other fields failed (their errors merged and raised), all selected validators run on the constructed object otherwise; init values come from the data or, for valid absent fields only, from the default factory", floor=8)
+    ctx.rule("C10.R7", "ObjectMethod: validators whose dependencies are all valid run on the mock when other fields failed (their errors merged and raised), all selected validators run on the constructed object otherwise; init values come from the data or, for absent fields having one, from the default factory", floor=8)
     omn = om.node
     opar = parents_of(omn)
     from .common_children import _bindings
     ev7 = BoolEval(complements({"self.validators": "has_validators", "self.init_defaults": "has_init", "name in values": "in_values", "field_errors": "has_ferr", "errors": "has_err",
                                 "name not in field_errors": "!name_failed", "default_factory is not None": "has_factory"}))
     names7 = ["has_validators", "has_init", "in_values", "has_ferr", "has_err", "name_failed", "has_factory"]
-    dom7 = lambda x: x["has_validators"] and x["has_factory"] and (not x["name_failed"] or x["has_ferr"])
+    # (the former condition `name not in field_errors` looked a Python name up among aliases: DESIGN 8.11; whether the field
+    #  failed does not matter, validators depending on it are removed through invalid_fields)
+    dom7 = lambda x: x["has_validators"] and (not x["name_failed"] or x["has_ferr"])
     sites7 = {"init-from-data": ([a for a in ast.walk(omn) if isinstance(a, ast.Assign) and norm(a) == "init[name] = values[name]"], lambda x: x["has_init"] and x["in_values"]),
-              "init-from-default": ([a for a in ast.walk(omn) if isinstance(a, ast.Assign) and norm(a) == "init[name] = default_factory()"], lambda x: x["has_init"] and not x["in_values"] and not x["name_failed"])}
+              "init-from-default": ([a for a in ast.walk(omn) if isinstance(a, ast.Assign) and norm(a) == "init[name] = default_factory()"], lambda x: x["has_init"] and not x["in_values"] and x["has_factory"])}
     calls7 = [c for c in ast.walk(omn) if isinstance(c, ast.Call) and isinstance(c.func, ast.Name) and c.func.id == "validate"]
     mock = [c for c in calls7 if c.args and isinstance(c.args[0], ast.Call) and (dotted(c.args[0].func) or "").endswith("ValidatorMock")]
     real = [c for c in calls7 if c not in mock]
@@ -571,6 +573,24 @@ def check(ctx):
     skip = any(isinstance(n, ast.If) and norm(n.test) == f"member in {guard}" and any(isinstance(x, ast.Continue) for x in n.body) for n in ast.walk(fd.node))
     ctx.check(skip, "C10.R10", f"{fd.qualname}:cycle-cut", fd.node.body[0], "a member already on the call path is no longer skipped: mutual recursion between helpers does not terminate", fd, fd.node, detail="if member in rec_guard: continue")
 
+    # ---------------- R11: helpers are resolved through the class hierarchy
+    ctx.rule("C10.R11", "find_all_dependencies resolves `self.<attr>` on the validated class through its MRO (hasattr / getattr), unwraps properties to their getter and replaces callables by their own dependencies", floor=4)
+    cls_p = fd.params[0]
+    own_ns = [n for n in ast.walk(fd.node) if (isinstance(n, ast.Call) and dotted(n.func) == "vars" and n.args and norm(n.args[0]) == cls_p)
+              or (isinstance(n, ast.Attribute) and n.attr == "__dict__" and norm(n.value) == cls_p)]
+    ctx.check(not own_ns, "C10.R11", f"{fd.qualname}:mro-lookup", None,
+              f"`{short(own_ns[0], 40) if own_ns else ''}` only sees the attributes defined in the class body: a method or property inherited from a base class is not expanded into the fields it reads, its name stays in the dependency set as if it were a field (the validator is then filtered out as 'all dependencies defaulted', or runs although a field behind the helper is invalid)",
+              fd, own_ns[0] if own_ns else fd.node, detail=f"no vars({cls_p}) / {cls_p}.__dict__")
+    members = [n for n in ast.walk(fd.node) if isinstance(n, ast.Assign) and norm(n.targets[0]) == "member"]
+    ok = any(isinstance(m.value, ast.Call) and dotted(m.value.func) in ("getattr", "inspect.getattr_static", "getattr_static") and len(m.value.args) >= 2 and norm(m.value.args[0]) == cls_p for m in members)
+    ctx.check(ok, "C10.R11", f"{fd.qualname}:member", None, "the class member named by a dependency is no longer fetched with getattr on the class", fd, members[0] if members else fd.node, detail=f"member = getattr({cls_p}, attr)")
+    unwrap = any(isinstance(n, ast.If) and norm(n.test) == "isinstance(member, property)" and any(isinstance(x, ast.Assign) and norm(x.targets[0]) == "member" and norm(x.value) == "member.fget" for x in n.body) for n in ast.walk(fd.node))
+    ctx.check(unwrap, "C10.R11", f"{fd.qualname}:property", None, "a property is no longer replaced by its getter: the fields it reads are not dependencies of the validators using it", fd, fd.node, detail="member = member.fget")
+    expand = [n for n in ast.walk(fd.node) if isinstance(n, ast.If) and norm(n.test) == "callable(member)"]
+    ok = len(expand) == 1 and any(isinstance(x, ast.Expr) and norm(x.value) == "dependencies.remove(attr)" for x in expand[0].body) \
+        and any(isinstance(x, ast.Expr) and isinstance(x.value, ast.Call) and norm(x.value.func) == "dependencies.update" for x in ast.walk(expand[0]))
+    ctx.check(ok, "C10.R11", f"{fd.qualname}:expand", None, "a callable member is no longer replaced (removed, then updated) by its own dependencies", fd, expand[0] if expand else fd.node, detail="dependencies.remove(attr); dependencies.update(rec_deps)")
+
 
 def fixtures(ctx):
     src = "def f(xs, i=0):\n    for i, x in enumerate(xs):\n        f(xs[i:])\n        f(xs[i + 1:])\n"
@@ -587,6 +607,12 @@ def fixtures(ctx):
 
 
 def mutants(mb):
+    D = "apischema/validation/dependencies.py"
+    mb.add_text("deps-own-namespace", D, "        if not hasattr(cls, attr):\n            continue\n        member = getattr(cls, attr)\n", "        if attr not in vars(cls):\n            continue\n        member = vars(cls)[attr]\n", "C10.R11", "mro-lookup")
+    mb.add_text("deps-dict-lookup", D, "        if not hasattr(cls, attr):\n            continue\n        member = getattr(cls, attr)\n", "        if attr not in cls.__dict__:\n            continue\n        member = cls.__dict__[attr]\n", "C10.R11", "mro-lookup")
+    mb.add_text("deps-property-not-unwrapped", D, "        if isinstance(member, property):\n            member = member.fget\n", "", "C10.R11", "property")
+    mb.add_text("deps-helper-kept", D, "            dependencies.remove(attr)\n", "", "C10.R11", "expand")
+    mb.add_text("neg-deps-getattr-default", D, "        if not hasattr(cls, attr):\n            continue\n        member = getattr(cls, attr)\n", "        member = getattr(cls, attr, None)\n        if member is None:\n            continue\n", negative=True)
     V = "apischema/validation/validators.py"
     E = "apischema/validation/errors.py"
     M = "apischema/deserialization/methods.py"
@@ -599,7 +625,7 @@ def mutants(mb):
     mb.add_text("object-mock-run-dropped", M, "                try:\n                    validate(\n                        ValidatorMock(self.constructor.cls, values),\n                        [\n                            v\n                            for v in validators\n                            if v.dependencies.isdisjoint(invalid_fields)\n                        ],\n                        init,\n                        aliaser=self.aliaser,\n                    )\n                except ValidationError as err:\n                    error = merge_errors(error, err)\n                raise error", "                raise error", "C10.R7", "mock-run")
     mb.add_text("object-invalid-fields-aliases", M, "                invalid_fields = self.post_init_modified | {\n                    field.name\n                    for field in self.fields\n                    if field_errors and field.alias in field_errors\n                }\n", "                invalid_fields = self.post_init_modified | (field_errors or {}).keys()\n", "C10.R7", "invalid-names")
     mb.add_text("object-invalid-fields-inplace", M, "                invalid_fields = self.post_init_modified | {\n                    field.name\n                    for field in self.fields\n                    if field_errors and field.alias in field_errors\n                }\n", "                invalid_fields = self.post_init_modified\n                invalid_fields |= {\n                    field.name\n                    for field in self.fields\n                    if field_errors and field.alias in field_errors\n                }\n", "C10.R7", "invalid-fields")
-    mb.add_text("object-init-from-default-when-failed", M, "                    elif not field_errors or name not in field_errors:", "                    elif not field_errors or name in field_errors:", "C10.R7", "init-from-default")
+    mb.add_text("object-init-default-unguarded", M, "                    elif default_factory is not None:\n", "                    else:\n", "C10.R7", "init-from-default")
     mb.add_text("object-init-guard-flipped", M, "                    if name in values:\n                        init[name] = values[name]", "                    if name not in values:\n                        init[name] = values[name]", "C10.R7", "init-from-data")
     mb.add_text("object-selection-inverted", M, "                v for v in self.validators if not v.dependencies.isdisjoint(aliases)", "                v for v in self.validators if v.dependencies.isdisjoint(aliases)", "C10.R7", "selection")
     mb.add_text("object-real-run-no-init", M, "            return validate(obj, validators, init, aliaser=self.aliaser)", "            return validate(obj, validators, aliaser=self.aliaser)", "C10.R7", "real-args")
